@@ -236,7 +236,7 @@ func (e *Engine) identical(a, b Value) bool {
 		return true
 	case MapV:
 		y, ok := b.(MapV)
-		return ok && x == y
+		return ok && x.obj == y.obj && x.nn == y.nn
 	case ChanV:
 		y, ok := b.(ChanV)
 		return ok && x == y
@@ -383,12 +383,25 @@ func (e *Engine) mergeValue(c *Term, a, b Value) Value {
 		}
 		return IfaceV{alts}
 	case FloatV:
+		if e.mergeStrict {
+			unsup("merging different floats")
+		}
 		return Undef{"merge of different floats"}
 	case MapV:
 		y, ok := b.(MapV)
-		if ok && (x.obj == 0 || y.obj == 0) {
-			return Undef{"merge nil and non-nil map"}
+		if ok && x.obj == 0 && y.obj != 0 {
+			return MapV{y.obj, e.And(e.Not(c), e.mapNonNil(y))}
 		}
+		if ok && y.obj == 0 && x.obj != 0 {
+			return MapV{x.obj, e.And(c, e.mapNonNil(x))}
+		}
+		if ok && x.obj == y.obj {
+			return MapV{x.obj, e.Ite(c, e.mapNonNil(x), e.mapNonNil(y))}
+		}
+	}
+	if e.mergeStrict {
+		// paths that differ in a value without a symbolic merge (closures, distinct maps/channels, floats) stay apart
+		unsup("merging values of type %T that have no symbolic join", a)
 	}
 	return Undef{fmt.Sprintf("cannot merge %T", a)}
 }
